@@ -241,7 +241,7 @@ ACCEPT_TABLE = {
     r"^polled_span\|option-unwrap\|expect\|Missing ID; this is a bug\|<=Span::id$": ("by-construction", "tracing span bookkeeping, independent of connection data"),
     r"^<server::conn::auto::ReadVersion as futures_core::Future>::poll\|slice-index\|index": ("guarded", "indices are len_before <= filled().len() <= 24 = HTTP2_PREFIX.len(): the loop runs only while filled().len() < HTTP2_PREFIX.len() and ReadBuf never exceeds its 24-byte capacity (extent agreement is checked by C08.2)"),
     r"^<rewind::Rewind as hyper::rt::Read>::poll_read\|(slice-index|bytes-range)": ("guarded", "n = min(prefix.len(), remaining): checked by C08.5"),
-    r"^rewind::put_slice\|": ("guarded", "assert!(remaining >= slice.len()) with slice.len() = n <= remaining (C08.5)"),
+    r"^<rewind::Rewind as hyper::rt::Read>::poll_read\|(panic|assert)": ("guarded", "assert!(remaining >= slice.len()) with slice.len() = n <= remaining (C08.5)"),
     r"^<bridge::io::TokioIo as tokio::io::AsyncRead>::poll_read\|assert-Overflow": ("by-construction", "filled + sub_filled <= capacity of the caller's buffer (both are lengths within one allocation)"),
     r"^<server::conn::tls::TlsStream as info::HasConnectionInfo>::info\|option-unwrap\|expect\|connection info available without tls handshake\|<=Option::map$": ("by-construction", "info() on a server TlsStream is taken when the stream is accepted / when its service is made (poll_once, Stream::new, make_service_ref(&stream)), i.e. before the stream is first polled: tokio_rustls::Accept::get_ref() is Some until the handshake future has completed"),
     r"^server::conn::tls::.*\|option-unwrap\|": ("by-construction", "TLS stream state machine (handshake state), not peer data"),
